@@ -269,6 +269,9 @@ pub fn truncate_case(case: &Case) -> Case {
 pub trait Progress: Sync {
     fn chunk_start(&self, fam: &str, chunk: u64);
     fn chunk_done(&self, fam: &str, chunk: u64, evals: u64);
+    /// a case failed (first of its signature in the chunk): recorded at once, so that it survives a run
+    /// that is killed later because another case does not return
+    fn case_failed(&self, _fam: &str, _chunk: u64, _case: &Case) {}
 }
 
 pub struct NoProgress;
@@ -358,6 +361,7 @@ pub fn run_all(
                                     } else {
                                         // at most one new failure per distinct signature per chunk
                                         if !found.iter().any(|x| x.failure.sig == f.sig) {
+                                            progress.case_failed(&fam.name, chunk, &case);
                                             found.push(Found {
                                                 family: fam.name.clone(),
                                                 chunk,
